@@ -577,14 +577,18 @@ func main() {
 			go func() { s, e := eng.Merge(context.Background()); first <- res{s, e} }()
 			select {
 			case <-arrived:
-				_, err2 := eng.Merge(context.Background())
-				switch {
-				case errors.Is(err2, bs.ErrMergeInProgress):
-					o.Second = "inprogress"
-				case err2 == nil:
-					o.Second = "ran"
-				default:
-					o.Second = "other"
+				// several further calls while the first is held: every one of them must be turned away (a rejected
+				// call must not disturb the guard for the next one)
+				o.Second = "inprogress"
+				for k := 0; k < 3; k++ {
+					_, err2 := eng.Merge(context.Background())
+					switch {
+					case errors.Is(err2, bs.ErrMergeInProgress):
+					case err2 == nil:
+						o.Second = "ran"
+					default:
+						o.Second = "other"
+					}
 				}
 				o.Reached = true
 				close(holdCh)
